@@ -93,6 +93,45 @@ def impl_accepts_spelling(a: dict) -> dict:
         return out
 
 
+def impl_user_subclasses(_: dict) -> dict:
+    """User-defined tensor classes: a subclass with its own DTYPES accepts exactly those, whether built by call or by subscript,
+    whatever other classes exist - including another class of the same __name__ (class factory, re-executed notebook cell) - and in
+    whatever order they were first used."""
+    import numpy as np
+
+    import dltype
+
+    problems, n = [], 0
+
+    def make(name, dtypes, base=dltype.TensorTypeBase):
+        return type(name, (base,), {"DTYPES": dtypes})
+
+    def verdict(ann, dt):
+        try:
+            ann.check(np.zeros((2, 3), dtype=dt), "x")
+            return True
+        except dltype.DLTypeDtypeError:
+            return False
+
+    for order in (0, 1):
+        A_ = make("ImageTensor", (np.uint8,))
+        B_ = make("ImageTensor", (np.float32,), base=dltype.FloatTensor)
+        C_ = make("MaskTensor", (np.bool_,))
+        pairs = [(A_, {"u8": True, "f32": False, "bool": False}), (B_, {"u8": False, "f32": True, "bool": False}), (C_, {"u8": False, "f32": False, "bool": True})]
+        if order:
+            pairs.reverse()
+        for how in ("subscript", "call", "subscript"):
+            for cls, want in pairs:
+                ann = cls["n m"] if how == "subscript" else cls("n m")
+                for k, dt in (("u8", np.uint8), ("f32", np.float32), ("bool", np.bool_)):
+                    n += 1
+                    got = verdict(ann, dt)
+                    if type(ann) is not cls or got != want[k]:
+                        problems.append({"what": "a user-defined tensor class does not accept exactly its own DTYPES", "class": cls.__name__, "dtypes": [str(d) for d in cls.DTYPES],
+                                         "built_by": how, "array_dtype": k, "accepted": got, "expected": want[k], "type_is_the_class": type(ann) is cls})
+    return {"n": n, "problems": problems}
+
+
 def run(tier: str, seed: int, rep: Report, model: Model) -> dict:
     tasks = []
     for cls in I.TENSOR_CLASSES:
@@ -155,4 +194,13 @@ def run(tier: str, seed: int, rep: Report, model: Model) -> dict:
         elif acc != doc:
             # a dtype numpy does not consider equal to any canonical one (e.g. byte-swapped): the model of `in DTYPES` says no
             rep.disagreement({"what": "model of `dtype in DTYPES` (numpy dtype equality) and implementation differ", **rec})
+    w4 = ImplWorker("harness.props.c04")
+    try:
+        us = w4.call("impl_user_subclasses", {}, timeout=60.0)
+    finally:
+        w4.close()
+    rep.case("user_subclasses", {"n": us.get("n")})
+    rep.count("user_subclass_observations", us.get("n", 0))
+    for pr in us.get("problems", [{"what": "the user-subclass run did not finish", "detail": us}] if "problems" not in us else []):
+        rep.violation(pr)
     return {"tables": {c: I.class_dtoks(c) for c in I.TENSOR_CLASSES}}
